@@ -52,9 +52,44 @@ def iv_eval(e, env):
   return None
 
 
+def decide_scalar(e, facts):
+  """Truth value of a comparison of a name with constants under concrete values of scalar names, or None."""
+  if isinstance(e, ast.UnaryOp) and isinstance(e.op, ast.Not):
+    v = decide_scalar(e.operand, facts)
+    return None if v is None else not v
+  if isinstance(e, ast.Compare) and len(e.ops) == 1 and isinstance(e.left, ast.Name) and e.left.id in facts:
+    v = facts[e.left.id]
+    op, r = e.ops[0], e.comparators[0]
+    ok, c = au.const(r)
+    if ok:
+      return {ast.Eq: v == c, ast.NotEq: v != c, ast.Lt: v < c, ast.LtE: v <= c, ast.Gt: v > c, ast.GtE: v >= c}.get(type(op))
+    if isinstance(r, (ast.Tuple, ast.List, ast.Set)) and all(au.const(x)[0] for x in r.elts):
+      vals = [au.const(x)[1] for x in r.elts]
+      if isinstance(op, ast.In):
+        return v in vals
+      if isinstance(op, ast.NotIn):
+        return v not in vals
+  return None
+
+
+def dead_under(expr, facts):
+  """The sub-expression sits in the branch of a conditional expression that is not evaluated under `facts`."""
+  cur, par = expr, getattr(expr, '_parent', None)
+  while par is not None and not isinstance(par, ast.stmt):
+    if isinstance(par, ast.IfExp) and cur is not par.test:
+      v = decide_scalar(par.test, facts)
+      if v is not None and ((v and cur is par.orelse) or ((not v) and cur is par.body)):
+        return True
+    cur, par = par, getattr(par, '_parent', None)
+  return False
+
+
 def edge_filter_for(g, facts):
   """Prune branches decided by concrete values of scalar names, e.g. {'tails': 1}."""
   def decide(e):
+    v_ = decide_scalar(e, facts)
+    if v_ is not None:
+      return v_
     if isinstance(e, ast.Compare) and len(e.ops) == 1 and isinstance(e.left, ast.Name) and e.left.id in facts:
       v = facts[e.left.id]
       op, r = e.ops[0], e.comparators[0]
@@ -95,7 +130,7 @@ def quantile_order(rep, f, rule, level_iv, sites_fn, prop_hint=''):
     reach = g.reachable(g.entry, ef)
     env = {'level': level_iv, 'tails': Iv(tails, tails)}
     for kind, arg, node, what in sites_fn(ctx, rd, reach):
-      if node not in reach:
+      if node not in reach or dead_under(arg, {'tails': tails}):
         continue
       ex = rd.expand(node, arg, keep=('level', 'tails'))[0]
       iv = iv_eval(ex, env)
@@ -262,19 +297,62 @@ def distribution_rules(repo, rep, prefix):
     for n in g.nodes:
       if n.kind == 'stmt' and isinstance(n.ast, ast.Assign) and norm(n.ast.targets[0]) == name:
         yield n
+  def core(e):
+    """Strip wrappers that only change the array shape/type: np.array(X), X.reshape(..), X.flatten(), (X)."""
+    while True:
+      if isinstance(e, ast.Call) and norm(e.func) in ('np.array', 'numpy.array', 'np.asarray') and len(e.args) == 1 and not e.keywords:
+        e = e.args[0]
+      elif isinstance(e, ast.Call) and isinstance(e.func, ast.Attribute) and e.func.attr in ('reshape', 'flatten', 'ravel'):
+        e = e.func.value
+      else:
+        return e
+
+  def core_deep(e):
+    e = core(dataflow.clone(e))
+    return dataflow._map_children(e, core_deep) if isinstance(e, ast.AST) else e
+
   o = list(single('one_to_t'))
-  rep.check(bool(o) and norm(o[0].ast.value) == 'np.arange(1, len_test + 1)', prefix + 'R5/posterior-shape', 't runs over 1..T', f.qualname,
+  o_txt = norm(core(rd.expand(o[0], o[0].ast.value, keep=('len_test',))[0])) if o else 'missing'
+  rep.check(bool(o) and o_txt == 'np.arange(1, len_test + 1)', prefix + 'R5/posterior-shape', 't runs over 1..T', f.qualname,
             norm(o[0].ast)[:80] if o else 'missing', 'the day counter is `%s`, not 1..T' % (norm(o[0].ast.value) if o else 'missing'), f.loc())
-  vt = [n for n in g.nodes if n.kind == 'stmt' and isinstance(n.ast, ast.Assign) and norm(n.ast.targets[0]) == 'var_t']
-  if vt:
-    t = norm(rd.expand(vt[0], vt[0].ast.value, keep=('t', 'one_to_t', 'cntrl_mat'))[0])
-    cm = rd.single_def(vt[0], 'cntrl_mat')
+  # the per-day quadratic form m_t' V m_t: loop form  var_t = M[t,] @ V @ M[t,].T  or comprehension form  [r @ V @ r.T for r in M]
+  quad = None     # (node, M expr, V expr)
+  for n in g.nodes:
+    if n.kind != 'stmt' or not isinstance(n.ast, ast.Assign):
+      continue
+    for sub in ast.walk(n.ast.value):
+      if isinstance(sub, ast.BinOp) and isinstance(sub.op, ast.MatMult) and isinstance(sub.left, ast.BinOp) and isinstance(sub.left.op, ast.MatMult):
+        left, mid, right = sub.left.left, sub.left.right, sub.right
+        if not (isinstance(right, ast.Attribute) and right.attr == 'T' and norm(right.value) == norm(left)):
+          continue
+        M = None
+        if isinstance(left, ast.Subscript):
+          M = left.value          # M[t,]
+        elif isinstance(left, ast.Name):
+          gen = None
+          cur, par = sub, getattr(sub, '_parent', None)
+          while par is not None and not isinstance(par, ast.stmt):
+            if isinstance(par, (ast.ListComp, ast.GeneratorExp)) and len(par.generators) == 1 and norm(par.generators[0].target) == left.id:
+              gen = par.generators[0]
+            cur, par = par, getattr(par, '_parent', None)
+          if gen is not None:
+            M = gen.iter
+        if M is not None:
+          quad = (n, M, mid)
+  if quad is not None:
+    qn, M, V = quad
+    keepn = ('t', 'one_to_t', 'cntrl_mat')
+    cm = rd.single_def(qn, 'cntrl_mat')
     cmt = norm(rd.expand(cm.node, cm.value, keep=('periods',))[0]) if cm is not None and cm.value is not None else ''
     rep.check(cmt == 'self._design_matrix(self._make_period_index(periods))', prefix + 'R5/posterior-shape', 'design rows are (1, control) of the analysed periods', f.qualname,
               'cntrl_mat = ' + cmt[:100], 'the design rows used for the parameter variance are `%s`' % cmt[:100], f.loc())
-    ok = re.fullmatch(r'np\.array\(np\.array\((\w+)\.cumsum\(\)\) / one_to_t\)\[t,\] @ np\.array\(self\.pre_period_model\.cov_params\(\)\) @ np\.array\(np\.array\(\1\.cumsum\(\)\) / one_to_t\)\[t,\]\.T', t)
-    rep.check(ok is not None, prefix + 'R5/posterior-shape', 'parameter variance = m_t\' V m_t with m_t the running mean of the design rows and V the OLS covariance', f.qualname,
-              'var_t = ' + t[:200], 'the parameter-variance term `%s` is not the quadratic form of the running mean of the control design rows in the OLS covariance matrix' % t[:160], f.loc(vt[0].ast))
+    mt = norm(core_deep(rd.expand(qn, M, keep=keepn)[0]))
+    vt_ = norm(core_deep(rd.expand(qn, V, keep=keepn)[0]))
+    okq = mt == 'cntrl_mat.cumsum() / one_to_t' and vt_ == 'self.pre_period_model.cov_params()'
+    rep.check(okq, prefix + 'R5/posterior-shape', 'parameter variance = m_t\' V m_t with m_t the running mean of the design rows and V the OLS covariance', f.qualname,
+              'rows of %s in %s' % (mt[:100], vt_[:80]),
+              'the parameter-variance term is the quadratic form of the rows of `%s` in `%s`, not of the running mean of the control design rows in the OLS covariance matrix' % (mt[:120], vt_[:80]),
+              f.loc(qn.ast))
   else:
     rep.undecided(prefix + 'R5/posterior-shape', 'var_t', 'per-day quadratic form not found', f.loc())
   cr = list(single('causal_response'))
